@@ -313,6 +313,9 @@ pub fn run(report: &Report) {
     super::pyfront::sweep(report, "symbol", if q { 3 } else { 4 },
         "Python symbol.StackCoder / QueueEncoder with every Huffman book of the sweep and every message up to 3 symbols: a twin on which get_compressed_and_bitrate and get_decoder are called between all symbols gives the same words and bit rate",
         &["inspections"], &[]);
+    super::pyfront::sweep(report, "misuse", 0,
+        "Python AnsCoder.get_compressed(unseal=True) on coders that are not in a sealed state (new, loaded from compressed words): the view must be refused like the export it stands for, and leave the coder unchanged",
+        &["unseal=True"], &[]);
     super::pyfront::sweep(report, "sizes", if q { 5 } else { 7 },
         "every message up to the listed length over 3 symbols x 2 models on the Python AnsCoder and RangeEncoder: a twin that is inspected between all symbols (get_compressed, num_words, num_bits, num_valid_bits, is_empty, pos, clone, get_decoder) produces the same words",
         &["inspections", "second call", "get_decoder"], &[]);
